@@ -17,7 +17,7 @@ def main(tier):
                 "must equal the reference stream and agree on the final byte count. Non-trivial as in C03; distinct by scenario+history.")
     chk.assumptions = ["matcher abstracted to 'line contains byte m'", "bounds: specs/search/C02_*.cfg",
                        "the BOM peek of the transcoding layer makes the first roll-buffer read <= 3 bytes; the model allows any size"]
-    cfgs = ["C02_quick"] if tier == "quick" else ["C02_quick", "C02_deep"]
+    cfgs = ["C02_quick", "C02_nul"] if tier == "quick" else ["C02_quick", "C02_nul", "C02_deep"]
     groups = {}
 
     def cross(r, o, j):
